@@ -348,6 +348,22 @@ def check_posterior(rng, exprs, label):
                 i, t, o, v, want)
     if len(rows) != n * n_out * len(ts):
         return 'PosteriorPredictiveModel table has %d rows' % len(rows)
+    # every (chain, draw) of the individual is a possible parameter set, all equally likely
+    big = 60 * n_chains * n_draws
+    reset_logs()
+    pp.sample([1.0], n_samples=big, individual=ind, seed=rng.randrange(1000))
+    counts = {}
+    for s in range(big):
+        p0 = toy.shared[s][0][0]
+        counts[p0] = counts.get(p0, 0) + 1
+    want = {cols[0][c][d] for c in range(n_chains) for d in range(n_draws)}
+    if set(counts) != want:
+        return ('PosteriorPredictiveModel(individual=%s): %d samples used %d of the %d (chain, draw) parameter sets of the '
+                'posterior' % (ind, big, len(set(counts) & want), len(want)))
+    pr = 1.0 / len(want)
+    for v, c in counts.items():
+        if abs(c / big - pr) > 6 * math.sqrt(pr * (1 - pr) / big):
+            return 'PosteriorPredictiveModel: one posterior draw was used with frequency %.3f, expected %.3f' % (c / big, pr)
     return None
 
 
